@@ -173,12 +173,15 @@ class StmtMixin(CallMixin):
             self._want_dict = want
         if want is not None and want.kind == 'set':
             self._want_set_elem = want.args[0]
+        if want is not None and want.kind == 'obj' and want.cls == 'PySet':
+            self._want_pyset = True
         try:
             v = self.eval(node)
         finally:
             self._want_elem = None
             self._want_dict = None
             self._want_set_elem = None
+            self._want_pyset = False
         if want is not None and v.ty.kind != 'py':
             v = coerce(v, want)
         return v
